@@ -53,7 +53,7 @@ _ADD = dict(
     modifies=["param:self", "param:self.bars"], old_by_reference=["old_last"],
     inline_callees=[B + "is_full", B + "place_notes", B + "__init__", B + "set_meter", B + "empty"],
     split=[{"field_types": {"self.bars": "[" + ",".join(["BarT"] * k) + "]"}} for k in (0, 1, 2)], split_is_domain=True,
-    properties=["C14"], battery="track_add",
+    properties=["C14", "C18"], battery="track_add",
     notes="domain: tracks without an instrument holding 0, 1 or 2 bars, each bar in ANY state (entry list of unknown "
           "length, any beat, any power-of-two or unbounded meter); the item a rest or a container; float-as-real. The "
           "known finding C14/rejected-item-opens-bar is visible here as the clause pair 'a bar is opened' + 'refused "
